@@ -94,6 +94,176 @@ static long prevKeystoneHeight(long h, long ki, long n) {
   return k < 0 ? 0 : k;
 }
 
+
+// ------------------------------------------------------------------ C19: publication data produced by the LIBRARY
+// An altchain whose header really commits to the top-level merkle root, as the contract of
+// AltChainParams::checkBlockHeader says: header bytes = raw AltBlock ++ 32-byte root, where the altchain computed
+// root = CalculateTopLevelMerkleRoot(txRoot, PopData of that block, previous block index, params).
+struct RootAlt : public AltChainParams {
+  AltBlock getBootstrapBlock() const noexcept override {
+    AltBlock b;
+    b.hash = std::vector<uint8_t>(32, 1);
+    b.previousBlock = std::vector<uint8_t>(32, 0);
+    b.height = 0;
+    b.timestamp = 0;
+    return b;
+  }
+  int64_t getIdentifier() const noexcept override { return 77; }
+  static bool split(const std::vector<uint8_t>& bytes, AltBlock& b, std::vector<uint8_t>& root) {
+    if (bytes.size() < 32) return false;
+    std::vector<uint8_t> head(bytes.begin(), bytes.end() - 32);
+    root.assign(bytes.end() - 32, bytes.end());
+    ValidationState st;
+    return DeserializeFromRaw<AltBlock>(head, b, st);
+  }
+  std::vector<uint8_t> getHash(const std::vector<uint8_t>& bytes) const noexcept override {
+    AltBlock b;
+    std::vector<uint8_t> r;
+    if (!split(bytes, b, r)) return std::vector<uint8_t>(32, 0xEE);
+    return b.getHash();
+  }
+  bool checkBlockHeader(const std::vector<uint8_t>& bytes, const std::vector<uint8_t>& root,
+                        ValidationState& state) const noexcept override {
+    AltBlock b;
+    std::vector<uint8_t> committed;
+    if (!split(bytes, b, committed)) return state.Invalid("bad-header");
+    if (committed != root) return state.Invalid("root-mismatch");
+    return true;
+  }
+};
+
+// pubdata <nblocks> <which endorsed> <nvtb in endorsed> <natv in endorsed> <via mempool 0|1>
+// every block's body comes from the mempool / MockMiner; every publication data from GeneratePublicationData.
+static std::string pubdataScenario(const std::vector<std::string>& a) {
+  if (a.size() < 5) return "SKIP args";
+  int nblocks = std::stoi(a[0]), nvtb = std::stoi(a[2]), natv = std::stoi(a[3]);
+  bool viaMempool = a[4] == "1";
+  RootAlt alt;
+  alt.mEndorsementSettlementInterval = 10;
+  alt.mPreserveBlocksBehindFinal = 10;
+  alt.mPopPayoutsParams->mPopPayoutDelay = 10;
+  VbkChainParamsRegTest vbk;
+  BtcChainParamsRegTest btc;
+  setMockTime(1700000000);
+  adaptors::InmemStorageImpl storage;
+  adaptors::PayloadsStorageImpl payloads(storage);
+  adaptors::BlockReaderImpl blocks(storage, alt);
+  AltBlockTree tree(alt, vbk, btc, payloads, blocks);
+  tree.btc().bootstrapWithGenesis(GetRegTestBtcBlock());
+  tree.vbk().bootstrapWithGenesis(GetRegTestVbkBlock());
+  tree.bootstrap();
+  MemPool mempool(tree);
+  MockMiner miner(alt, vbk, btc);
+  std::vector<uint8_t> txRoot(32, 0x42);
+  std::map<std::vector<uint8_t>, std::vector<uint8_t>> headerOf;  // hash -> header bytes (raw ++ committed root)
+  std::map<std::vector<uint8_t>, PopData> bodyOf;
+  std::vector<AltBlock> chain{alt.getBootstrapBlock()};
+  uint32_t now = 1700000000;
+  int payoutN = 0;
+
+  // honest endorsement of chain[idx], produced by the library
+  auto endorse = [&](size_t idx, PopData& into, std::string& err) -> bool {
+    const AltBlock& e = chain[idx];
+    PublicationData pub;
+    std::vector<uint8_t> payout{0xAB, (uint8_t)(++payoutN)};
+    if (!GeneratePublicationData(headerOf.at(e.getHash()), txRoot, bodyOf.at(e.getHash()), payout, tree, pub)) {
+      err = "GeneratePublicationData does not know the endorsed block";
+      return false;
+    }
+    auto tx = miner.createVbkTxEndorsingAltBlock(pub);
+    setMockTime(++now);
+    auto* blk = miner.mineVbkBlocks(1, std::vector<VbkTx>{tx});
+    PopData pd = miner.createPopDataEndorsingAltBlock(blk->getHeader(), tx, tree.vbk().getBestChain().tip()->getHash());
+    ValidationState st;
+    if (!checkATV(pd.atvs.at(0), st, alt, vbk)) {
+      err = "stateless check of the honest ATV fails: " + st.GetPath();
+      return false;
+    }
+    for (auto& b : pd.context) into.context.push_back(b);
+    for (auto& v : pd.vtbs) into.vtbs.push_back(v);
+    into.atvs.push_back(pd.atvs.at(0));
+    return true;
+  };
+  auto dedup = [](PopData& pd) {
+    std::set<std::vector<uint8_t>> seen;
+    std::vector<VbkBlock> c;
+    for (auto& b : pd.context) if (seen.insert(b.getId().asVector()).second) c.push_back(b);
+    pd.context = c;
+    std::set<std::vector<uint8_t>> sv;
+    std::vector<VTB> v;
+    for (auto& w : pd.vtbs) if (sv.insert(w.getId().asVector()).second) v.push_back(w);
+    pd.vtbs = v;
+  };
+
+  std::string err;
+  for (int k = 1; k <= nblocks; k++) {
+    const AltBlock& prev = chain.back();
+    AltBlock nb;
+    nb.hash = std::vector<uint8_t>(32, (uint8_t)(0x10 + k));
+    nb.previousBlock = prev.getHash();
+    nb.height = prev.height + 1;
+    nb.timestamp = prev.timestamp + 1;
+    PopData pd;
+    // endorsements of earlier blocks (never the bootstrap block), VTBs
+    int wantAtv = (k >= 2) ? (k == std::stoi(a[1]) ? natv : 1) : 0;
+    int wantVtb = (k == std::stoi(a[1])) ? nvtb : 0;
+    for (int j = 0; j < wantVtb; j++) {
+      setMockTime(++now);
+      auto* tipv = miner.vbk().getBestChain().tip();
+      auto vtb = miner.endorseVbkBlock(tipv->getHeader(), tree.btc().getBestChain().tip()->getHash());
+      pd.vtbs.push_back(vtb);
+      // connecting VBK context for the containing block
+      auto* w = miner.vbk().getBlockIndex(vtb.containingBlock.getHash());
+      std::vector<VbkBlock> ctx;
+      for (; w != nullptr && tree.vbk().getBlockIndex(w->getHash()) == nullptr; w = w->pprev) ctx.push_back(w->getHeader());
+      std::reverse(ctx.begin(), ctx.end());
+      for (auto& b : ctx) pd.context.push_back(b);
+    }
+    for (int j = 0; j < wantAtv; j++) {
+      size_t E = (size_t)std::stoi(a[1]);
+      size_t idx = (j == 0 && (size_t)k > E && E >= 1) ? E : 1 + (size_t)((k + j) % (int)(chain.size() - 1));
+      if (!endorse(idx, pd, err)) return "fail block " + std::to_string(k) + ": " + err;
+    }
+    dedup(pd);
+    std::sort(pd.context.begin(), pd.context.end(), [](const VbkBlock& x, const VbkBlock& y) { return x.getHeight() < y.getHeight(); });
+    ValidationState st;
+    if (viaMempool) {
+      for (auto& b : pd.context) { auto r = mempool.submit<VbkBlock>(b, true, st); (void)r; }
+      for (auto& v : pd.vtbs) { auto r = mempool.submit<VTB>(v, true, st); (void)r; }
+      for (auto& t : pd.atvs) {
+        auto r = mempool.submit<ATV>(t, true, st);
+        if (!r.isAccepted()) return "fail block " + std::to_string(k) + ": mempool refuses an honest ATV: " + st.GetPath();
+      }
+      PopData gen = mempool.generatePopData();
+      if (gen.atvs.size() != pd.atvs.size()) return "fail block " + std::to_string(k) + ": generatePopData returned " + std::to_string(gen.atvs.size()) + " of " + std::to_string(pd.atvs.size()) + " honest ATVs";
+      pd = gen;
+    }
+    // the altchain commits to the top-level root of this body in the header
+    auto root = CalculateTopLevelMerkleRoot(txRoot, pd, tree.getBlockIndex(prev.getHash()), alt);
+    auto hdr = nb.toRaw();
+    hdr.insert(hdr.end(), root.begin(), root.end());
+    headerOf[nb.getHash()] = hdr;
+    bodyOf[nb.getHash()] = pd;
+    if (!tree.acceptBlockHeader(nb, st)) return "fail block " + std::to_string(k) + ": header " + st.GetPath();
+    {
+      PopValidator val(vbk, btc, alt, 1);
+      if (!checkPopData(val, pd, st)) return "fail block " + std::to_string(k) + ": stateless " + st.GetPath();
+    }
+    auto* idx = tree.getBlockIndex(nb.getHash());
+    tree.acceptBlock(*idx, pd, st);
+    if (!tree.setState(*idx, st)) return "fail block " + std::to_string(k) + ": setState " + st.GetPath();
+    for (auto& t : pd.atvs) {
+      bool found = false;
+      for (auto& kv : idx->getContainingEndorsements()) if (kv.second->id == AltEndorsement::getId(t)) found = true;
+      if (!found) return "fail block " + std::to_string(k) + ": endorsement not recorded";
+    }
+    mempool.removeAll(pd);
+    chain.push_back(nb);
+  }
+  headerOf[alt.getBootstrapBlock().getHash()] = {};
+  return "ok";
+}
+
 struct RulesSession : public vw::Session {
   std::string cur;  // id of the current case (for oracle lines)
 
@@ -376,6 +546,49 @@ struct RulesSession : public vw::Session {
     return R.regVbk(blk->getHeader());
   }
 
+  // endorse <t> <a> <vparent> <lastKnownVbk> <payouthex>: an endorsement whose connecting context is produced by the
+  // LIBRARY's miner (MockMiner::createPopDataEndorsingAltBlock -> getBlocks) from a "last known VBK block" -> bop id
+  std::map<std::string, PopData> libpd;
+  std::string endorse(const std::vector<std::string>& t) {
+    if (t.size() < 6) return "SKIP args";
+    auto& R = *reg;
+    if (!R.alt.count(t[2]) || !R.vbk.count(t[3]) || !R.vbk.count(t[4]) || R.atv.count(t[1]) || t[2] == "a0") return "SKIP";
+    if (R.vidx(t[3]) == nullptr || R.vidx(t[4]) == nullptr) return "SKIP not-in-miner-tree";
+    const auto& e = R.alt.at(t[2]);
+    PublicationData pub;
+    pub.payoutInfo = vh::unhex(t[5]);
+    pub.identifier = R.p.alt.getIdentifier();
+    pub.header = e.block.toRaw();
+    const auto* prev = R.ref.getBlockIndex(e.block.previousBlock);
+    pub.contextInfo = SerializeToVbkEncoding(AuthenticatedContextInfoContainer::createFromPrevious(uint256(), prev, R.p.alt));
+    auto tx = R.miner.createVbkTxEndorsingAltBlock(pub);
+    R.tick();
+    auto* blk = R.miner.mineVbkBlocks(1, *R.vidx(t[3]), std::vector<VbkTx>{tx});
+    if (blk == nullptr) return "SKIP miner-rejected";
+    PopData pd = R.miner.createPopDataEndorsingAltBlock(blk->getHeader(), tx, R.vbk.at(t[4]).getHash());
+    libpd[t[1]] = pd;
+    R.atv[t[1]] = pd.atvs.at(0);
+    R.atvEndorsed[t[1]] = t[2];
+    auto aid = pd.atvs.at(0).getId();
+    R.names["id:" + vh::hex(aid.data(), aid.size())] = t[1];
+    for (auto& w : pd.vtbs) {  // VTBs the miner attached to the context blocks keep their registry names
+      auto wid = w.getId();
+      (void)wid;
+    }
+    return R.regVbk(blk->getHeader());
+  }
+  // mpsubpd <t>: everything of that library-made PopData is submitted to the mempool -> status of the ATV
+  std::string mpsubpd(Instance& I, const std::string& t) {
+    auto it = libpd.find(t);
+    if (it == libpd.end()) return "SKIP";
+    ValidationState st;
+    for (auto& b : it->second.context) { ValidationState s1; auto r = I.mempool->submit<VbkBlock>(b, true, s1); (void)r; }
+    for (auto& v : it->second.vtbs) { ValidationState s1; auto r = I.mempool->submit<VTB>(v, true, s1); (void)r; }
+    auto r = I.mempool->submit<ATV>(it->second.atvs.at(0), true, st);
+    const char* names[] = {"valid", "failed-stateful", "failed-stateless"};
+    return std::string(names[(int)r.status]) + " ctx=" + std::to_string(it->second.context.size()) + (st.IsValid() ? "" : (" " + st.GetPath()));
+  }
+
   // vts <vparent> <timestamp>: a VBK header with a CHOSEN timestamp on top of a registry block (nonce re-mined). The
   // miner's own tree gets it when it accepts it; a header it refuses is still registered (body material for a
   // contextually invalid ALT block) -> new id
@@ -632,7 +845,10 @@ struct RulesSession : public vw::Session {
     const BtcBlock& first = tx.blockOfProofContext.empty() ? tx.blockOfProof : tx.blockOfProofContext.front();
     std::string conn = first.getPreviousBlock() != uint256() ? reg->nameOf(first.getPreviousBlock()) : reg->nameOf(first.getHash());
     std::string r = reg->nameOf(tx.publishedBlock.getHash()) + " " + reg->nameOf(v.containingBlock.getHash()) + " " + conn + " ";
-    for (auto& b : tx.blockOfProofContext) r += reg->nameOf(b.getHash()) + ",";
+    for (auto& b : tx.blockOfProofContext) {
+      if (b.getPreviousBlock() == uint256()) continue;  // a context that starts at genesis: genesis is known anyway
+      r += reg->nameOf(b.getHash()) + ",";
+    }
     r += reg->nameOf(tx.blockOfProof.getHash());
     return r;
   }
@@ -758,6 +974,8 @@ struct RulesSession : public vw::Session {
     if (c == "xvtb") return xvtb(t);
     if (c == "atvn") return atvn(t);
     if (c == "vts") return vts(t);
+    if (c == "endorse") return endorse(t);
+    if (c == "mpsubpd" && t.size() > 1) return mpsubpd(I, t[1]);
     if (c == "bts") return bts(t);
     if (c == "xvtbts") return xvtbts(t);
     if (c == "btsof" && t.size() > 1) return btsof(t[1]);
@@ -795,8 +1013,9 @@ int main() {
     std::string r;
     try {
       if (a[0] == "decl") r = "ok";
+      else if (a[0] == "pubdata") r = pubdataScenario(std::vector<std::string>(a.begin() + 1, a.end()));
       else {
-        if (a[0] == "begin") { s.failKind.clear(); s.xpar.clear(); }
+        if (a[0] == "begin") { s.failKind.clear(); s.xpar.clear(); s.libpd.clear(); }
         if (a[0] == "on" && a.size() > 1) s.curInst = a[1];
         // `set` = `verdict` (same call, the failing block and kind are remembered)
         if (a[0] == "on" && a.size() > 3 && a[2] == "set") a[2] = "verdict";
